@@ -83,10 +83,10 @@ func litFor(t types.Type, depth int) string {
 
 // special-case argument lists where a type-correct literal is still rejected at compile time
 var c08Args = map[string]string{
-	"http.send":         `{"method": "get", "url": "http://127.0.0.1:1/verif-c08"}`,
-	"rego.parse_module": `"m.rego", "package x"`,
-	"walk":              `{"a": 1}`,
-	"regex.match":       `"a", "a"`,
+	"http.send":          `{"method": "get", "url": "http://127.0.0.1:1/verif-c08"}`,
+	"rego.parse_module":  `"m.rego", "package x"`,
+	"walk":               `{"a": 1}`,
+	"regex.match":        `"a", "a"`,
 	"net.lookup_ip_addr": `"verif-c08.invalid"`,
 }
 
@@ -214,7 +214,7 @@ func c08Profile(code, position string) string {
 func init() {
 	Register(Meta{
 		ID: "C08", Level: "exploration",
-		Rule: "B x P x S: B = every built-in registered in the linked engine (ast.Builtins of the OPA version the repository links, so a dependency bump changes B); P = 15 embedding positions of the profile language (top-level rego / regoModule / code+message, under a path as rego / regoModule, under not, and/or operand, if/then/else, inside nested, inside atLeast, a helper in rego_extensions called from a validation, also under nested+not); S = 10 call syntaxes (statement, unification, assignment, array/set/object comprehension, every, argument of another call, negated, some-in; relation form for walk). Arguments are synthesised from the declared type. Denied set F = {http.send, net.lookup_ip_addr, opa.runtime, rego.parse_module, walk}: every (p,s) must be rejected by CompileProfile and by Validate, with zero resolver/dial attempts recorded by the instrumented net.DefaultResolver and loopback listener. All other built-ins are vacuity controls (the same templates must compile). Non-trivial = (builtin, position, syntax) for a denied built-in; distinct by profile text.",
+		Rule:        "B x P x S: B = every built-in registered in the linked engine (ast.Builtins of the OPA version the repository links, so a dependency bump changes B); P = 15 embedding positions of the profile language (top-level rego / regoModule / code+message, under a path as rego / regoModule, under not, and/or operand, if/then/else, inside nested, inside atLeast, a helper in rego_extensions called from a validation, also under nested+not); S = 10 call syntaxes (statement, unification, assignment, array/set/object comprehension, every, argument of another call, negated, some-in; relation form for walk). Arguments are synthesised from the declared type. Denied set F = {http.send, net.lookup_ip_addr, opa.runtime, rego.parse_module, walk}: every (p,s) must be rejected by CompileProfile and by Validate, with zero resolver/dial attempts recorded by the instrumented net.DefaultResolver and loopback listener. All other built-ins are vacuity controls (the same templates must compile). Non-trivial = (builtin, position, syntax) for a denied built-in; distinct by profile text.",
 		Assumptions: []string{"only the five built-ins the property names are required to be denied"},
 	}, c08Gen, c08Run)
 }
